@@ -16,8 +16,10 @@ where
     | [] => []
     | n :: ns => n :: (Node.descendants n ++ nodes ns)
 
-/-- CPython fact (asserted by `astser.check_wf` on every tree): a positioned node's span is
-non-empty and contains the first line of every positioned node below it -/
+/-- CPython fact (asserted by `astser.check_wf` on every tree the harness serialises): a positioned
+node's span is non-empty and contains the first line of every positioned node below it.  The one
+exception in CPython 3.12 is a decorated function / class definition, whose decorators precede the
+`def` line: `spanOK` is false for such a node, and theorems that assume `spanOK` say nothing about it. -/
 def Node.spanOK (n : Node) : Bool :=
   match n.pos with
   | none => true
